@@ -6,6 +6,7 @@ import subprocess
 import sys
 
 from .. import facts as factsmod
+from ..guards import ne, sh
 from ..mir import parent_fn
 
 PROBE = "runtime::Runtime::check_stack"
@@ -227,19 +228,224 @@ def r1_guard_on_every_cycle(ctx):
     ctx.note("self-guarding bodies: %s; call sites guarded by a dominating propagated probe: %d" % (sorted(sg), guarded_sites))
 
 
-RULES = [("C08-R1", r1_guard_on_every_cycle)]
+# ---------------------------------------------------------------------------------------------------------------------
+# R2: the probe measures what it has to measure, against a budget that fits the thread's stack
+THREAD_STACK = 8 * 1024 * 1024      # assumption: default main-thread stack of the hosts the CLI targets (ulimit -s 8192)
+EXTERNAL_ALLOWANCE = 128 * 1024     # frames of std / libc below the interpreter's own (formatting, I/O, process spawning)
+UNKNOWN_FRAME = 512                 # a body for which the code generator emitted no size (inlined away / not instantiated)
+MAX_SINGLE_FRAME = 64 * 1024
+
+
+def _addr_of_own_local(fn, operand):
+    """operand is (a copy chain of) `&raw const <local> as usize` for a plain local of fn."""
+    pl = (operand.get("move") or operand.get("copy")) if isinstance(operand, dict) else None
+    seen = 0
+    while pl is not None and not pl["p"] and seen < 6:
+        defs = fn.whole_defs(pl["l"])
+        if len(defs) != 1 or defs[0][1] == "t":
+            return False
+        rv = defs[0][2]["rv"]
+        if rv["k"] == "use" or rv["k"] == "cast":
+            a = rv["a"]
+            pl = (a.get("move") or a.get("copy")) if isinstance(a, dict) else None
+            seen += 1
+            continue
+        if rv["k"] in ("rawptr", "ref"):
+            of = rv["of"]
+            return not of["p"] and of["l"] > fn.argc
+        return False
+    return False
+
+
+def r2_probe_and_budget(ctx):
+    prog = ctx.lib
+    probe = ctx.need(PROBE)
+    ctx.touch(probe)
+    budget = None
+    c = prog.consts.get("runtime::STACK_BUDGET")
+    if c is not None:
+        budget = c.get("int") if isinstance(c, dict) else None
+        if budget is None and isinstance(c, dict) and c.get("bytes") is not None:
+            budget = int.from_bytes(bytes.fromhex(c["bytes"]), "little")
+    # (a) the comparison: stack_base.wrapping_sub(address of a local of the probe) > K  ->  Err(StackOverflow)
+    K = None
+    shape = False
+    for b in sorted(probe.live):
+        t = probe.blocks[b]["t"]
+        if t["k"] != "switch":
+            continue
+        si = probe.switch_info(b)
+        if si["kind"] != "bin" or si["op"] not in ("Gt", "Ge"):
+            continue
+        K = si["b"].get("int")
+        # left operand: result of wrapping_sub(self.stack_base, addr-of-local)
+        la = (si["a"].get("move") or si["a"].get("copy")) if isinstance(si["a"], dict) else None
+        sub = None
+        if la is not None:
+            for (bi, k, st) in probe.whole_defs(la["l"]):
+                if k == "t" and (st.get("res") or st.get("callee") or "").endswith("wrapping_sub"):
+                    sub = st
+        if sub is not None:
+            a0 = sh(ne(probe.deep(sub["args"][0])))
+            if a0 == "self.stack_base" and _addr_of_own_local(probe, sub["args"][1]):
+                # the true edge builds Err(StackOverflow)
+                tgt = [j for lab, j in probe.succ[b] if lab != 0]
+                txt = json.dumps([probe.blocks[x]["s"] for x in probe.reach(tgt)])
+                if "StackOverflow" in txt and '"variant": "Err"' in txt:
+                    shape = True
+    if shape:
+        ctx.ok("probe|distance-from-base", probe.where(), "stack_base - &local > %s -> Err(StackOverflow)" % K)
+    else:
+        ctx.bad("probe|distance-from-base", probe.where(), "check_stack no longer compares (stack_base - address of one of its own locals) with the budget and returns Err(StackOverflow) on the exceeding side: depth is not measured, or not reported")
+    if K is not None and budget is not None and K != budget:
+        ctx.bad("probe|constant|%s" % K, probe.where(), "check_stack compares against %s, not STACK_BUDGET (%s)" % (K, budget))
+    elif K is not None:
+        ctx.ok("probe|constant", probe.where(), "compared with STACK_BUDGET = %s" % K)
+    # (b) stack_base is set once, in run_inner, from the address of a local, before anything is executed; nobody else writes it
+    ri = ctx.need("runtime::Runtime::run_inner")
+    ctx.touch(ri)
+    writers = []
+    for fn in prog.fns.values():
+        for b in sorted(fn.live):
+            for st in fn.blocks[b]["s"]:
+                if any(isinstance(e, dict) and e.get("f") == "stack_base" for e in st["lhs"]["p"]):
+                    writers.append((fn, b, st))
+    others = sorted({parent_fn(fn.id) for fn, b, st in writers} - {ri.id})
+    if others:
+        ctx.bad("stack_base|other-writer|%s" % others[0], prog.fns[others[0]].where(), "Runtime.stack_base is also written in %s: re-anchoring the base during a run makes the measured distance restart from 0, so depth is never reached" % others)
+    mine = [(b, st) for fn, b, st in writers if fn.id == ri.id]
+    execs = [c for c in ri.calls() if c.callee and c.callee.startswith("runtime::Runtime::exec_")]
+    if len(mine) == 1 and mine[0][1]["rv"]["k"] == "cast" and _addr_of_own_local(ri, mine[0][1]["rv"]["a"]) and execs and all(ri.dominates(mine[0][0], c.block) for c in execs):
+        ctx.ok("stack_base|anchored-before-run", ri.where(mine[0][0]), "set from the address of a local of run_inner, dominating %d exec call(s)" % len(execs))
+    else:
+        ctx.bad("stack_base|anchored-before-run", ri.where(), "run_inner does not set stack_base from the address of one of its own locals before executing the program")
+    for entry in ("runtime::Runtime::run", "runtime::Runtime::run_with_analysis"):
+        e = ctx.need(entry)
+        if any(c.callee == ri.id for c in e.calls()):
+            ctx.ok("entry|%s" % entry.split("::")[-1], e.where(), "goes through run_inner")
+        else:
+            ctx.bad("entry|%s" % entry.split("::")[-1], e.where(), "%s no longer runs the program through run_inner (the stack base is not anchored)" % entry.split("::")[-1])
+    # (c) budget + what can be stacked after the last successful probe + what is above the anchor fits the thread stack
+    if budget is None:
+        ctx.bad("budget|const-missing", "src/runtime.rs", "cannot evaluate runtime::STACK_BUDGET")
+        return
+    ext = None
+    sizes = None
+    detail = "measured only in the thorough tier"
+    from .. import frames
+    if ctx.tier == "thorough" and ctx.cfg != "dev":
+        ctx.note("frame sizes are measured on the dev configuration only (the release profile uses LTO: frames are fixed at link time); default extension allowance used here")
+    if ctx.tier == "thorough" and ctx.cfg == "dev":
+        sizes, raw, meta = _frames(ctx)
+        matched = sum(1 for k in prog.fns if frames._canon(k) in sizes)
+        if matched < 400:
+            # the release profile uses LTO: the rlib holds bitcode, frames are fixed at link time - nothing to read here
+            ctx.note("frame sizes not available for this configuration (%d of %d bodies matched; LTO defers code generation to the link): default extension allowance used" % (matched, len(prog.fns)))
+            sizes = None
+    if sizes is not None:
+        sg, edges, _ = build_graph(ctx)
+        cg = prog.callgraph()
+        adj = {}
+        for src, d in cg.items():
+            for cal in d:
+                pc = parent_fn(cal)
+                if pc in ctx._nodes and pc not in sg and pc != PROBE:
+                    adj.setdefault(parent_fn(src), set()).add(pc)
+
+        def fsize(node):
+            tot, unk = 0, 0
+            own = [k for k in prog.fns if parent_fn(k) == node]
+            best_clo = 0
+            for k in own:
+                v = sizes.get(frames._canon(k))
+                if v is None:
+                    v = UNKNOWN_FRAME
+                    unk += 1
+                if k == node:
+                    tot += v
+                else:
+                    best_clo = max(best_clo, v)
+            return tot + best_clo, unk
+        comps = sccs(set(adj) | {b for v in adj.values() for b in v} | set(sg), adj)
+        comp_of = {}
+        for i, comp in enumerate(comps):
+            for v in comp:
+                comp_of[v] = i
+        weight = {i: sum(fsize(v)[0] for v in comp) for i, comp in enumerate(comps)}
+        cadj = {}
+        for a, bs in adj.items():
+            for b in bs:
+                if comp_of[a] != comp_of[b]:
+                    cadj.setdefault(comp_of[a], set()).add(comp_of[b])
+        memo = {}
+
+        def longest(i):
+            if i in memo:
+                return memo[i]
+            memo[i] = 0  # cycle guard (condensation is a DAG)
+            best = 0
+            for j in cadj.get(i, ()):
+                best = max(best, longest(j))
+            memo[i] = weight[i] + best
+            return memo[i]
+        import sys as _sys
+        _sys.setrecursionlimit(10000)
+        ext = 0
+        start = None
+        for g in sorted(sg):
+            # everything a probing body can stack below itself before the next probe, plus the next probing frame itself
+            nxt = max([fsize(x)[0] for x in sg] + [0]) + fsize(PROBE)[0]
+            below = 0
+            for cal in {parent_fn(c) for c in cg.get(g, {}) if parent_fn(c) in ctx._nodes and parent_fn(c) not in sg and parent_fn(c) != PROBE}:
+                below = max(below, longest(comp_of[cal]))
+            if below + nxt > ext:
+                ext, start = below + nxt, g
+        big = sorted(((v, k) for k, v in sizes.items() if frames._canon(k) in {frames._canon(x) for x in prog.fns} and v > MAX_SINGLE_FRAME), reverse=True)
+        if big:
+            ctx.bad("frame|oversized|%s" % big[0][1], "src", "the native frame of %s is %d bytes (> %d): a handful of nested activations between two probes eats the margin above the budget" % (big[0][1], big[0][0], MAX_SINGLE_FRAME))
+        else:
+            ctx.ok("frame|largest", "src", "largest frame among %d bodies: %d bytes (%s profile)" % (len(prog.fns), max([sizes.get(frames._canon(k), 0) for k in prog.fns] + [0]), meta["profile"]))
+        cyc = [sorted(comp) for i, comp in enumerate(comps) if len(comp) > 1]
+        detail = "worst unprobed extension below %s: %d bytes over the condensed call graph (%d of %d bodies matched to code-generator frame sizes; unguarded cycles %s counted once - their depth is reported by R1)" % (start, ext, matched, len(prog.fns), [len(x) for x in cyc])
+        ctx.note(detail)
+    need = budget + (ext if ext is not None else 256 * 1024) + EXTERNAL_ALLOWANCE
+    if need <= THREAD_STACK:
+        ctx.ok("budget|fits-thread-stack", "src/runtime.rs", "STACK_BUDGET %d + extension %s + external allowance %d = %d <= %d" % (budget, ext if ext is not None else "256 KiB (default)", EXTERNAL_ALLOWANCE, need, THREAD_STACK))
+    else:
+        ctx.bad("budget|exceeds-thread-stack", "src/runtime.rs", "STACK_BUDGET (%d) plus what can be stacked after the last successful probe (%s) plus %d for std frames is %d bytes, more than the %d-byte main-thread stack: the guard page is hit before the probe reports 'Call stack don full'" % (budget, ext if ext is not None else "256 KiB default", EXTERNAL_ALLOWANCE, need, THREAD_STACK))
+
+
+_FRAMES = {}
+
+
+def _frames(ctx):
+    from .. import frames
+    key = (ctx.repo, ctx.cfg)
+    if key not in _FRAMES:
+        _FRAMES[key] = frames.collect(ctx.repo, release=(ctx.cfg == "release"))
+    return _FRAMES[key]
+
+
+RULES = [("C08-R1", r1_guard_on_every_cycle), ("C08-R2", r2_probe_and_budget)]
 
 EXPLANATION = (
     "R1: resolved call graph of the whole library (closures merged into their parents, Display::fmt edges added), every "
     "call edge classified as guarded (callee starts with a propagated check_stack probe that dominates all its calls, or "
     "the call site is dominated by such a probe/guarded call whose Err is propagated with `?`) or unguarded; strongly "
     "connected components of the unguarded graph that are reachable from the pipeline entry points are native-stack "
-    "recursion with no depth check. Decides: presence of a guard on every recursive cycle. Does not decide the native depth "
-    "at which a known cycle overflows, nor std-internal frames."
+    "recursion with no depth check. R2: the probe compares (stack_base - address of one of its own locals) with the evaluated "
+    "constant STACK_BUDGET and returns Err(StackOverflow) beyond it; stack_base is written only in run_inner, from the address "
+    "of one of its locals, before anything executes, and both entry points go through run_inner; STACK_BUDGET plus what can be "
+    "stacked after the last successful probe plus an allowance for std frames fits an 8 MiB thread stack. In the thorough tier "
+    "the extension is computed from the code generator's own frame sizes (-Z emit-stack-sizes, dev profile) as the longest "
+    "path in the condensed call graph below a probing body, and no single frame may exceed 64 KiB. Decides: presence of a "
+    "guard on every recursive cycle, soundness of the probe's arithmetic and constant. Does not decide the native depth at "
+    "which a known unguarded cycle overflows, release-profile frames (LTO: fixed at link time), nor std-internal frames."
 )
 ASSUMPTIONS = [
     "recursion over run-time data depth (clone_into, promote, Display, join) is bounded by arena exhaustion - named exceptions",
     "indirect calls through function pointers do not exist in the crate (none exported); drop glue is not modelled",
+    "the interpreter runs on a thread with at least 8 MiB of stack (Linux main thread default); std/libc frames below the interpreter's own need at most 128 KiB",
 ]
 TRUSTED = ["rustc nightly callee resolution (Instance::try_resolve)", "nsx exporter", "nsverif dominators and Tarjan SCC"]
 NONTRIVIAL = "one obligation per call edge inside a recursive cycle of the unguarded call graph plus the probe-shape and self-guarding obligations; distinct = distinct edge"
